@@ -9,6 +9,7 @@ import (
 	"path/filepath"
 	"sort"
 	"strings"
+	"sync"
 	"sync/atomic"
 
 	"verif/cli"
@@ -81,8 +82,42 @@ const (
 	c12Doc1  = "- chord:\n    degree: \"1\"\n    name: \"7\"\n    base: \"3\"\n  values:\n    - \"1\"\n    - \"1/2\"\n  bpm: 120\n  velocity: f\n  meter: \"3/4\"\n  key: \"Am\"\n  meta:\n    txt: hi\n    lic: la\n    mrk: mk\n    zz: \"1\"\n- values:\n    - 2\n- chord:\n    degree: \"b6\"\n    name: \"maj9\"\n  values:\n    - \"2/3\"\n  key: Cb\n"
 )
 
+const (
+	c12UserChords = "- name: UserA\n  meta:\n    display: ua\n  extends: MajorTriad\n  attributes:\n    - Perfect5\n    - Major9\n    - UA\n- name: UserB\n  meta:\n    display: ub\n  extends: ua\n  attributes:\n    - Major3\n    - Minor7\n- name: UserC\n  meta:\n    display: uc\n  extends: m7\n  attributes:\n    - Minor7\n    - Minor3\n"
+	c12UserAttrs  = "- name: UA\n  degree: \"#11\"\n- name: UB\n  degree: \"b13\"\n"
+	c12UserDoc    = "- chord:\n    degree: \"1\"\n    name: \"ua\"\n  values:\n    - \"1\"\n- chord:\n    degree: \"4\"\n    name: \"UserB\"\n    base: \"5\"\n  values:\n    - \"1\"\n- chord:\n    degree: \"5\"\n    name: \"uc\"\n  values:\n    - \"1\"\n"
+)
+
+var (
+	c12DictOnce                sync.Once
+	c12ChordFile, c12AttrFile string
+)
+
+// c12Args resolves the placeholders {CHORDS} and {ATTRS} to the user dictionary files of this run.
+func c12Args(args []string) []string {
+	c12DictOnce.Do(func() {
+		c12ChordFile = writeTemp(cli.Scratch, "c12-chords.yml", c12UserChords)
+		c12AttrFile = writeTemp(cli.Scratch, "c12-attrs.yml", c12UserAttrs)
+	})
+	r := make([]string, len(args))
+	for i, a := range args {
+		r[i] = strings.NewReplacer("{CHORDS}", c12ChordFile, "{ATTRS}", c12AttrFile).Replace(a)
+	}
+	return r
+}
+
 func c12Commands(thorough bool) []c12Cmd {
+	chordFile, attrFile := "{CHORDS}", "{ATTRS}"
 	cs := []c12Cmd{
+		// a user dictionary whose chords repeat attributes of their parents
+		{"info-chord-describe-user", []string{"info", "chord", "describe", "-t", "C_ua", "--chord", chordFile, "--attr", attrFile}, ""},
+		{"info-chord-describe-user", []string{"info", "chord", "describe", "-t", "Eb_UserB", "--chord", chordFile, "--attr", attrFile, "-s"}, ""},
+		{"info-chord-describe-user", []string{"info", "chord", "describe", "-t", "F#_uc", "--chord", chordFile, "--attr", attrFile}, ""},
+		{"info-chord-list-user", []string{"info", "chord", "list", "--chord", chordFile, "--attr", attrFile}, ""},
+		{"info-attr-list-user", []string{"info", "attr", "list", "--attr", attrFile}, ""},
+		{"write-user", []string{"write", "--chord", chordFile, "--attr", attrFile}, c12UserDoc},
+		{"write-event-user", []string{"write", "event", "--chord", chordFile, "--attr", attrFile, "--track", "3"}, c12UserDoc},
+		{"write-conv-user", []string{"write", "conv", "-c", "cmt", "--chord", chordFile, "--attr", attrFile}, c12UserDoc},
 		{"info-key-list", []string{"info", "key", "list"}, ""},
 		{"info-attr-list", []string{"info", "attr", "list"}, ""},
 		{"info-chord-list", []string{"info", "chord", "list"}, ""},
@@ -163,7 +198,7 @@ type runOut struct {
 }
 
 func c12Exec(bin string, c c12Cmd, env []string) runOut {
-	r := cli.Run(cli.Opt{Bin: bin, Stdin: []byte(c.Input), Env: env}, c.Args...)
+	r := cli.Run(cli.Opt{Bin: bin, Stdin: []byte(c.Input), Env: env}, c12Args(c.Args)...)
 	o := runOut{exit: r.Exit, stdout: r.Stdout}
 	if r.TimedOut {
 		o.bad = "hang"
@@ -216,7 +251,7 @@ func c12IOEval(e *Env, c c12IOCase, base *runOut) {
 		b := c12Exec("", c.Cmd, nil)
 		base = &b
 	}
-	args := append([]string{}, c.Cmd.Args...)
+	args := c12Args(c.Cmd.Args)
 	stdin := c.Cmd.Input
 	switch c.In {
 	case "dash":
@@ -275,10 +310,18 @@ func c12IOEval(e *Env, c c12IOCase, base *runOut) {
 
 func c12Repeat(e *Env, c c12Cmd) {
 	base := c12Exec("", c, nil)
+	n := 5
+	if strings.HasPrefix(c.Name, "text-conv-long") {
+		n = 25
+	}
 	for _, gmp := range []string{"1", "2", "16"} {
-		for i := 0; i < 5; i++ {
+		for i := 0; i < n; i++ {
 			e.R.Eval(1)
 			got := c12Exec("", c, []string{"GOMAXPROCS=" + gmp})
+			if got.bad == "hang" {
+				e.R.Fail(ev.Fail{Class: "C12/repeat/hang/" + c.Name, Msg: fmt.Sprintf("crd %s: run %d under GOMAXPROCS=%s does not terminate (other runs do)", c12Key(c), i, gmp), Kind: "repeat", Case: c})
+				return
+			}
 			if got.bad != "" || got.exit != base.exit || !bytes.Equal(got.stdout, base.stdout) {
 				e.R.Fail(ev.Fail{Class: "C12/repeat/" + c.Name, Msg: fmt.Sprintf("crd %s: run %d under GOMAXPROCS=%s differs from the first run: %s %s", c12Key(c), i, gmp, got.bad, describeDiff(base.stdout, got.stdout)), Kind: "repeat", Case: c})
 				return
@@ -517,8 +560,24 @@ func runC12(e *Env) {
 			reps = append(reps, c)
 		}
 	}
+	// long mixed-notation texts: the classifier exits early while the producer still has > 100 nodes to deliver
+	longText := func(n, badAt int) string {
+		var b strings.Builder
+		for k := 0; k < n; k++ {
+			if k == badAt {
+				b.WriteString("2[1] ")
+			} else {
+				b.WriteString("C/E[1,1/2]{a=b} ")
+			}
+		}
+		return b.String()
+	}
+	for _, bad := range []int{1, 30, 149} {
+		reps = append(reps, c12Cmd{"text-conv-long-mixed", []string{"text", "conv", "syllable"}, longText(150, bad)})
+	}
+	reps = append(reps, c12Cmd{"text-conv-long", []string{"text", "conv", "syllable"}, longText(150, -1)})
 	mc.ParFor(len(reps), func(i int) { c12Repeat(e, reps[i]) })
-	e.R.AddPart(ev.Part{Name: "repetition (supplementary)", Enumerated: "free-running: each command 5 times under GOMAXPROCS 1, 2 and 16, byte-compared (evidence, not the deciding step)", Executions: int64(15 * len(reps)), Exhaustive: true})
+	e.R.AddPart(ev.Part{Name: "repetition (supplementary)", Enumerated: "free-running: each command 5 times (long texts with an early classification error: 25 times) under GOMAXPROCS 1, 2 and 16, byte-compared, hang watchdog (evidence, not the deciding step)", Executions: int64(15 * len(reps)), Exhaustive: true})
 	if e.Thorough {
 		c12Race(e, cmds)
 	}
@@ -537,7 +596,7 @@ func c12Race(e *Env, cmds []c12Cmd) {
 		if c.Name == "info-key-conv" && i%9 != 0 {
 			return
 		}
-		r := cli.Run(cli.Opt{Bin: bin, Stdin: []byte(c.Input), Timeout: 60e9}, c.Args...)
+		r := cli.Run(cli.Opt{Bin: bin, Stdin: []byte(c.Input), Timeout: 60e9}, c12Args(c.Args)...)
 		atomic.AddInt64(&n, 1)
 		if strings.Contains(string(r.Stderr), "DATA RACE") {
 			e.R.Fail(ev.Fail{Class: "C12/data-race/" + c.Name, Msg: fmt.Sprintf("crd %s: the race detector reports a data race: %s", c12Key(c), firstLineWith(r.Stderr, "Write at", "Read at", "Previous")), Kind: "repeat", Case: c})
